@@ -5,12 +5,14 @@ from verifkit import read_lines, sh, REPO, VERIF, CACHE
 REQUIRED = [
     "DaeVerif.C02.Props.routeK_eq_userspace",
     "DaeVerif.C02.Props.routeK_after_any_reload_history",
+    "DaeVerif.C02.Props.kernel_decision",
     "DaeVerif.C02.Props.kernel_eq_first_match_spec",
     "DaeVerif.C02.Props.userspace_typed_eq_C01_matchM",
     "DaeVerif.C02.Props.dns_query_goes_to_control_plane",
     "DaeVerif.C02.Props.non_dns_or_must_same_decision",
     "DaeVerif.C02.Props.decode_encode_little",
     "DaeVerif.C02.Props.decode_encode_bigendian_fails",
+    "DaeVerif.C02.Props.bigendian_routes_differently",
     "DaeVerif.C02.Props.pack_unpack",
     "DaeVerif.C02.Props.pack_nonneg_fits_s64",
     "DaeVerif.C02.Props.ring_rewrite_injective",
@@ -84,6 +86,64 @@ def const_agreement(ctx):
     return len(rows)
 
 
+def glue_tripwire(ctx):
+    """buildRoutingKernspace's map updates cannot be executed without a kernel: the harness mirrors
+    them.  The few expressions the mirror depends on are checked textually so that an edit to the
+    un-executed glue cannot pass silently."""
+    src = open(os.path.join(REPO, "control/routing_matcher_builder.go")).read()
+    m = re.search(r"\nfunc buildRoutingKernspace\(.*?\n}\n", src, re.S)
+    problems = []
+    if not m:
+        problems.append("func buildRoutingKernspace not found")
+    else:
+        body = m.group(0)
+        exprs = set(re.sub(r"\s+", " ", e.strip()) for e in re.findall(r"lpmIndex:\s*(.+?),\n", body))
+        want = {"(allocStartIdx + uint32(idx)) % uint32(consts.MaxMatchSetLen)", "(allocStartIdx + uint32(i)) % uint32(consts.MaxMatchSetLen)"}
+        if exprs != want:
+            problems.append(f"lpmIndex expressions are {sorted(exprs)}, the harness mirrors {sorted(want)}")
+        marks = ["reserveLpmRingSlots(lpmCount)", "cidrToBpfLpmKey(cidr)", "bpf.LpmArrayMap.Update(r.lpmIndex, m, ebpf.UpdateAny)",
+                 "rewriteKernRulesWithRingLpmIndex(rules, allocStartIdx, lpmCount)",
+                 "BpfMapBatchUpdate(bpf.RoutingMap, routingsKeys, kernRules", "bpf.RoutingMetaMap.Update(uint32(0), routingsLen"]
+        pos = [body.rfind(x) if i == 2 else body.find(x) for i, x in enumerate(marks)]
+        if any(p < 0 for p in pos):
+            problems.append("expected call missing: " + ", ".join(x for x, p in zip(marks, pos) if p < 0))
+        elif pos != sorted(pos):
+            problems.append("order of map updates changed (expected: reserve, keys, lpm_array_map, rewrite, routing_map, routing_meta_map)")
+    for pr in problems:
+        ctx.report("buildRoutingKernspace glue (not executable without a kernel) no longer matches what the harness mirrors: " + pr,
+                   {"file": "control/routing_matcher_builder.go", "problem": pr}, no_input=True)
+    ctx.cov["glue_tripwire_ok"] = not problems
+
+
+def ring_invariants(ctx, ops):
+    """Slots of one generation are pairwise distinct; consecutive generations whose sizes add up to
+    at most MAX_MATCH_SET_LEN use disjoint slots (the hot-reload overlap window).  Checked on the
+    slots the real reserveLpmRingSlots handed out, whatever the allocation policy."""
+    gens, cur = [], None
+    for i, op in enumerate(ops):
+        t = op.split(" ", 4)
+        if t[0] == "reserve":
+            cur = {"line": i + 1, "count": int(t[1]), "start": int(t[2]), "slots": []}
+            gens.append(cur)
+        elif t[0] == "lpm" and cur is not None:
+            cur["slots"].append(int(t[2]))
+    n_pairs = 0
+    for g in gens:
+        if len(set(g["slots"])) != len(g["slots"]) or any(s >= 1024 + 8 for s in g["slots"]):
+            ctx.report(f"ring slots of one generation collide or leave lpm_array_map: start={g['start']} count={g['count']}",
+                       {"line": g["line"], "slots": g["slots"]})
+    for a, b in zip(gens, gens[1:]):
+        if a["count"] + b["count"] <= 1024:
+            n_pairs += 1
+            inter = set(a["slots"]) & set(b["slots"])
+            if inter:
+                ctx.report(f"consecutive reloads share LPM slots {sorted(inter)[:5]} although {a['count']}+{b['count']} <= 1024 "
+                           f"(old rules would read the new generation's sets during the reload window)",
+                           {"line": b["line"], "prev": a, "cur": b})
+    ctx.cov["ring_generations"] = len(gens)
+    ctx.cov["ring_consecutive_pairs_checked"] = n_pairs
+
+
 def expected_k(op_toks, u):
     """pack(dnsAdjust(u)) computed independently of Lean: the property's right-hand side."""
     if u == "err":
@@ -149,6 +209,7 @@ def run(ctx):
     ctx.required_theorems(REQUIRED)
 
     n_consts = const_agreement(ctx)
+    glue_tripwire(ctx)
 
     # native build of /repo's CURRENT tproxy.c (unmodified; #included by the driver)
     cdir = os.path.join(VERIF, "harness", "c")
@@ -182,7 +243,14 @@ def run(ctx):
         return ctx.finish(rule="native driver failed", evaluations=0, distinct=0)
     mism = ctx.diff_streams(os.path.join(ctx.out, "c02.ops"), os.path.join(ctx.out, "c02.merged"),
                             os.path.join(ctx.out, "c02.model"), "c02",
-                            canon=lambda s: "" if s.startswith("=") else s)  # const lines: three-way check below
+                            canon=lambda s: "" if s.startswith("=") else ("ok" if s.startswith("ok ring-model-predicted") else s))
+    # const lines: three-way check below; the ring counter's exact policy is not part of the property (invariants below)
+    ring_invariants(ctx, ops)
+    ring_dis = [m for m in model if m.startswith("ok ring-model-predicted")]
+    ctx.cov["ring_model_disagreements"] = len(ring_dis)
+    if ring_dis:
+        ctx.say(f"NOTE property=C02 reserveLpmRingSlots no longer follows the model's reserveRing on {len(ring_dis)} reloads "
+                f"(first: {ring_dis[0]}); slot invariants are checked on the observed slots")
     cur = {"prog": None, "tries": None}
     ctx_of = {}
     for i, op in enumerate(ops):
